@@ -552,9 +552,12 @@ fn cmd_check(args: &[String]) -> i32 {
             return 2;
         }
     }
-    {
+    let supp_n = {
         let (sq, st) = meta::supp_runs(prop);
-        let n = ((if tier == "thorough" { st } else { sq }) as f64 * scale) as u64;
+        ((if tier == "thorough" { st } else { sq }) as f64 * scale) as u64
+    };
+    {
+        let n = supp_n;
         if let Err(e) = spawn_batch(prop, seed, false, run::SUPP_BASE, run::SUPP_BASE + n, jobs, &out_dir, &mut m) {
             eprintln!("HARNESS ERROR: {}", e);
             return 2;
@@ -749,7 +752,7 @@ fn cmd_check(args: &[String]) -> i32 {
     }
     // 5. evidence
     let wall = t0.elapsed().as_secs_f64();
-    let ev = evidence_json(&pid_s, prop, tier, seed, &pm, &m, distinct.len() as u64, digests.len() as u64, distinct_keys, wall, audit_runs, &known_hit, &reported, ff, fi);
+    let ev = evidence_json(&pid_s, prop, tier, seed, &pm, &m, distinct.len() as u64, digests.len() as u64, distinct_keys, wall, audit_runs, &known_hit, &reported, ff + supp_n, fi);
     let ev_path = format!("{}/evidence/{}.json", VERIF, pid_s);
     std::fs::create_dir_all(format!("{}/evidence", VERIF)).ok();
     if let Err(e) = std::fs::write(&ev_path, ev) {
@@ -766,10 +769,11 @@ fn cmd_check(args: &[String]) -> i32 {
         }
     }
     println!(
-        "{}: runs={} (FF {} + FI {}) evaluations={} distinct_nontrivial={} foreign_truncations={} wall={:.1}s -> {}",
+        "{}: runs={} (FF {} incl. {} supplementary + FI {}) evaluations={} distinct_nontrivial={} foreign_truncations={} wall={:.1}s -> {}",
         pid_s,
         m.runs,
-        ff,
+        ff + supp_n,
+        supp_n,
         fi,
         m.evals,
         distinct.len(),
